@@ -36,6 +36,11 @@ type Prog struct {
 	constGlobals map[string]bool // globals never written outside init
 	loopCount map[*ssa.Function]int
 	autoInv   map[string]map[string]bool
+	knownHeaps map[string]*HeapInfo
+	houdiniDone map[*ssa.Function]bool
+	callC     map[*ssa.Function]*Contract
+	hints     map[string][]string
+	rebase    bool
 	ginit     map[string]*gInit
 	// hooks installed by property checks
 	allocHook  func(fr *Frame, st *State, x ssa.Instruction, n Term)
@@ -356,7 +361,11 @@ func (P *Prog) instrKeys(in ssa.Instruction, out map[string]bool) {
 				out["CH:"+typeName(cc.Args[0].Type())] = true
 			}
 		}
-		// interior pointers escaping into calls may be written by the callee
+		// interior pointers escaping into calls may be written by the callee;
+		// for in-repo static callees the callee's own mod-set already says so.
+		if sc := cc.StaticCallee(); sc != nil && P.inRepo[sc] && sc.Blocks != nil {
+			return
+		}
 		for _, a := range cc.Args {
 			switch a.(type) {
 			case *ssa.FieldAddr, *ssa.IndexAddr, *ssa.Alloc, *ssa.Global:
@@ -407,6 +416,9 @@ func (P *Prog) modset(fn *ssa.Function) map[string]bool {
 		}
 		if c := P.contractFor(f); c != nil {
 			P.contractKeys(c, o)
+		}
+		for _, ic := range P.ifaceContractsFor(f) {
+			P.contractKeys(ic, o)
 		}
 		for _, b := range f.Blocks {
 			for _, in := range b.Instrs {
@@ -560,6 +572,74 @@ func (P *Prog) implementations(iface types.Type, m *types.Func) []*ssa.Function 
 	}
 	sort.Slice(res, func(i, j int) bool { return funcKey(res[i]) < funcKey(res[j]) })
 	P.implCache[key] = res
+	return res
+}
+
+// implInfo describes one implementation of an interface method.
+type implInfo struct {
+	fn     *ssa.Function // function in the method set (may be a promotion wrapper)
+	target *ssa.Function // declared method the wrapper forwards to (== fn if none)
+	recvT  types.Type    // dynamic type stored in the interface (T or *T)
+	path   []string      // embedded field path from the receiver to the target's receiver
+}
+
+func (P *Prog) implInfos(iface types.Type, m *types.Func) []implInfo {
+	it, ok := under(iface).(*types.Interface)
+	if !ok {
+		return nil
+	}
+	var res []implInfo
+	for _, t := range P.allNamed {
+		if isIface(t) {
+			continue
+		}
+		for _, tt := range []types.Type{t, types.NewPointer(t)} {
+			if !types.Implements(tt, it) {
+				continue
+			}
+			if _, isP := tt.(*types.Pointer); isP && types.Implements(t, it) {
+				continue // value type already implements; the interface holds whichever was boxed. keep value form only
+			}
+			sel := P.prog.MethodSets.MethodSet(tt).Lookup(m.Pkg(), m.Name())
+			if sel == nil {
+				continue
+			}
+			f := P.prog.MethodValue(sel)
+			if f == nil {
+				continue
+			}
+			info := implInfo{fn: f, target: f, recvT: tt}
+			if obj, ok := sel.Obj().(*types.Func); ok {
+				if tf := P.prog.FuncValue(obj); tf != nil {
+					info.target = tf
+				}
+			}
+			// embedded path
+			cur := t
+			idx := sel.Index()
+			okPath := true
+			for _, fi := range idx[:len(idx)-1] {
+				st, isS := under(cur).(*types.Struct)
+				if !isS {
+					okPath = false
+					break
+				}
+				f := st.Field(fi)
+				info.path = append(info.path, f.Name())
+				cur = f.Type()
+				if _, isPtr := under(cur).(*types.Pointer); isPtr {
+					okPath = false
+					break
+				}
+			}
+			if !okPath {
+				info.path = nil
+				info.target = f
+			}
+			res = append(res, info)
+		}
+	}
+	sort.Slice(res, func(i, j int) bool { return funcKey(res[i].fn) < funcKey(res[j].fn) })
 	return res
 }
 
